@@ -491,6 +491,27 @@ class FuncEffects:
             child, p = p, getattr(p, "_parent", None)
         return out
 
+    def sources_filled(self, e, at=None):
+        """sources_with_control(e) plus, for every local in ``e`` that is handed (itself, or one of its bound methods such as
+        ``l.append``) to a call, the inputs of that call's other arguments: the callee may fill the container from them
+        (``render(x, func, l.append)`` makes ``func`` an input of ``" ".join(l)``)."""
+        out = self.sources_with_control(e, at)
+        names = {n.id for n in ast.walk(e) if isinstance(n, ast.Name)}
+        # one level of local aliasing: rendered = " ".join(l)
+        for n in list(names):
+            for d in self.defs_at(n, at if at is not None else e):
+                if d.value is not None and d.kind == "assign":
+                    names |= {x.id for x in ast.walk(d.value) if isinstance(x, ast.Name)}
+        for c in A.calls(self.fn, into_nested=True):
+            args = list(c.args) + [k.value for k in c.keywords]
+            handed = [a for a in args if (isinstance(a, ast.Name) and a.id in names and a.id in self.local_names and a.id not in self.params) or (
+                isinstance(a, ast.Attribute) and isinstance(a.value, ast.Name) and a.value.id in names and a.value.id in self.local_names and a.value.id not in self.params)]
+            if handed:
+                for a in args:
+                    if a not in handed:
+                        out |= self.sources(a, c)
+        return out
+
     def sources_with_control(self, e, at=None):
         """sources(e) plus the inputs of every branch condition under which one of the definitions flowing into ``e``
         was made (``if invert: s = wrap(s)`` makes ``invert`` an input of ``s``)"""
